@@ -41,7 +41,7 @@ func rcbLaw(X1, Y1, Z1, X2, Y2, Z2, b *Poly) (X3, Y3, Z3 *Poly) {
 }
 
 func checkC15(c *Ctx, r *Report) {
-	r.Explanation = "Decided: (a) [proof-strength] the straight-line bodies of (*SM2Point).Add and Double, evaluated in Z[b][X1,Y1,Z1,X2,Y2,Z2] by following the receiver objects of the fiat.SM2Element method calls, equal the complete addition law for a=-3 (Renes-Costello-Batina) as polynomials (Double: the law at P2=P1 for X,Y and Z3=8Y^3Z, which agrees with it on the curve); no receiver field is written before the last read of an operand field (alias safety); Negate is (X,-Y,Z); sm2B resolves to the curve's b. (b) strict decoding: guard inventory of (*SM2Point).SetBytes and SM2Element.SetBytes; (c) encoding lengths; (d) sibling agreement of the safe and fast affine conversions. NOT decided: round-trip identity and safe/fast agreement as statements about values; correctness of the field arithmetic underneath (C16)."
+	r.Explanation = "Decided: (a) [proof-strength] the straight-line bodies of (*SM2Point).Add and Double, evaluated in Z[b][X1,Y1,Z1,X2,Y2,Z2] by following the receiver objects of the fiat.SM2Element method calls, equal the complete addition law for a=-3 (Renes-Costello-Batina) as polynomials (Double: the law at P2=P1 for X,Y and Z3=8Y^3Z, which agrees with it on the curve); no receiver field is written before the last read of an operand field (alias safety); Negate is (X,-Y,Z); sm2B resolves to the curve's b. (b) strict decoding: guard inventory of (*SM2Point).SetBytes and SM2Element.SetBytes; (c) encoding lengths; (d) sibling agreement of the safe and fast affine conversions; (e) FRESH-RESULT: every function returning a *SM2Point/*SM2Element/*SM2ScalarElement returns its receiver or storage that no package-level variable and no other parameter reaches (effect analysis), so in-place arithmetic on a result cannot change the generator, the tables or another point. NOT decided: round-trip identity and safe/fast agreement as statements about values; correctness of the field arithmetic underneath (C16)."
 	r.Trusted = []string{"go/parser, go/types", "Renes-Costello-Batina 2015/1060 Theorem: the a=-3 law is complete on prime-order curves", "fiat.SM2Element methods compute the named field operation (C16)"}
 	p, err := LoadRepo(c.Repo, "amd64")
 	if err != nil {
@@ -50,6 +50,13 @@ func checkC15(c *Ctx, r *Report) {
 	}
 	f := NewFolder(p)
 	pk := p.Pkgs["sm2/internal"]
+	{
+		// (e) every point / element a caller can obtain is its own storage (in-place operations stay local)
+		eff := NewEffects(p, map[string]map[int]bool{})
+		eff.Run()
+		freshResultObligations(r, p, eff)
+		r.Floor("fresh_result_obligations", 30)
+	}
 	X1, Y1, Z1, X2, Y2, Z2, B := polyVar(0), polyVar(1), polyVar(2), polyVar(3), polyVar(4), polyVar(5), polyVar(6)
 
 	// sm2B must be the curve's b
